@@ -662,6 +662,29 @@ impl Runner {
                 let s = self.settle();
                 self.emit(&format!("wst {}", s));
             }
+            ["wack", cb] => {
+                if self.store.is_none() {
+                    return;
+                }
+                let pat1 = format!("ev cb {} ", cb);
+                let pat2 = format!("ev cbdrop {}", cb);
+                let mut n = 0;
+                let mut s = gate::wait_settled(self.timeout);
+                loop {
+                    let lines = gate::take_lines();
+                    let hit = lines.iter().any(|l| l.starts_with(&pat1) || l == &pat2);
+                    for l in lines {
+                        self.emit(&l);
+                    }
+                    if hit || s.starts_with("idle") || s.starts_with("dead") || s == "stuck" || n > 100000 {
+                        break;
+                    }
+                    gate::release(Outcome::Ok);
+                    s = gate::wait_settled(self.timeout);
+                    n += 1;
+                }
+                self.emit(&format!("wst {}", s));
+            }
             ["widle"] => {
                 if self.store.is_none() {
                     return;
